@@ -29,7 +29,7 @@ func runC19(c *ev.Ctx) {
 	c.Rule = "for one picture: bytes of Encode(canonical *image.NRGBA at origin, tight stride) vs every placement {offset, negative origin, sub-image (2 sentinel fills), " +
 		"odd-offset sub-image, stride padding (2 fills), over-long Pix, opaque wrapper}, and concrete Go type T vs Wrapper{T}; caller buffer hashed before/after; " +
 		"distinct = (class, alpha, size mod 16 bucket, codec, method, exact, sharp, dithering, placement/type)"
-	n := c.N(500, 12000)
+	n := c.N(1500, 250000)
 	var cases []ev.Case
 	for i := 0; i < n; i++ {
 		r := rng(c, i)
